@@ -199,21 +199,49 @@ Print Assumptions linux_hooks_hand_only_legal_masks_to_kernel.
 Example linux_masks_nonvacuous :
   (* BIND|MIGRATE of nodes {0,1} on an 8-node machine, kernel without MPOL_PREFERRED_MANY: migrate_pages, the
      rejected set_mempolicy(PREFERRED_MANY) and the MPOL_PREFERRED retry all carry mask {0,1}; the migrate_pages
-     SOURCE mask is 0x0f0f...: the known finding, outside what kinv constrains *)
+     SOURCE mask is every node below max_os_index (fix 64f3633) *)
   let T := TP (bs_of_N 0xff) (bs_of_N 0xff) (bs_of_N 0xff) (bs_of_N 0xff) [] true in
   let kernel (c : kcall) (k : unit) :=
     (match c with K_set_mempolicy 5 _ _ => KR (-1) EINVAL bs_empty 0 [] | _ => KR 0 E0 bs_empty 0 [] end, k) in
   l_ktrace (snd (linux_set_thisthread_membind unit kernel T (bs_of_N 3) HWLOC_MEMBIND_BIND HWLOC_MEMBIND_MIGRATE (LW tt (-1) (-1) [])))
-  = [K_migrate_pages 65 (bs_of_N 0x0f0f0f0f0f0f0f0f) (bs_of_N 3); K_set_mempolicy 5 (Some (bs_of_N 3)) 65; K_set_mempolicy 1 (Some (bs_of_N 3)) 65]
+  = [K_migrate_pages 65 (bs_of_N 0xffffffffffffffff) (bs_of_N 3); K_set_mempolicy 5 (Some (bs_of_N 3)) 65; K_set_mempolicy 1 (Some (bs_of_N 3)) 65]
   /\ l_pm_thread (snd (linux_set_thisthread_membind unit kernel T (bs_of_N 3) HWLOC_MEMBIND_BIND HWLOC_MEMBIND_MIGRATE (LW tt (-1) (-1) []))) = 1%Z.
 Proof. vm_compute. auto. Qed.
 
-(* hwloc_linux_get_area_membind: the reported nodeset contains heap garbage when the kernel needs more than one mask word *)
-Theorem linux_get_area_membind_uninit_refuted :
-  exists garbage, 
+(* ---- the composition: every bind.c entry point over the Linux hooks over ANY kernel ----
+   whatever the arguments (all sets, flag words, policies), whatever the kernel answers, every mask that
+   reaches sched_setaffinity / set_mempolicy / mbind / migrate_pages(destination) is non-empty and inside
+   the complete cpuset / nodeset. *)
+Theorem linux_only_legal_masks_reach_kernel :
+  forall KW kernel T tpid nr_cpus max_numnodes heap a (w : lw KW),
+  inf (t_cnodeset T) = false -> kinv KW T w ->
+  kinv KW T (s_w (snd (linux_run KW kernel T tpid nr_cpus max_numnodes heap a w))).
+Proof. exact linux_run_kernel_masks_legal. Qed.
+Print Assumptions linux_only_legal_masks_reach_kernel.
+
+Example linux_composed_nonvacuous :
+  (* complete cpuset 0xff, topology cpuset 0x0f: binding the thread to 0x1f reaches sched_setaffinity as 0xff *)
+  let kernel (c : kcall) (k : unit) := (KR 0 E0 bs_empty 0 [1%Z], k) in
+  l_ktrace (s_w (snd (linux_run unit kernel T_ex 0 256 64 heap_ok (A_set_cpubind (bs_of_N 0x1f) HWLOC_CPUBIND_THREAD) (LW tt (-1) (-1) []))))
+  = [K_setaffinity 0 (bs_of_N 0xff)] /\ inf (t_cnodeset T_ex) = false.
+Proof. vm_compute. auto. Qed.
+
+(* ---- hwloc_linux_get_area_membind (after fix 425f248): the reported nodeset is the topology nodeset as soon
+   as one page is DEFAULT/LOCAL, otherwise EXACTLY the union of the masks the kernel returned for the pages
+   (restricted to max_numnodes bits): no stale bits, for every kernel, every max_numnodes, every length ---- *)
+Theorem linux_get_area_membind_reports_union :
+  forall KW kernel T max_numnodes len (w : lw KW),
+  hr_rc (fst (linux_get_area_membind KW kernel T max_numnodes len w)) = 0%Z ->
+  hr_set (fst (linux_get_area_membind KW kernel T max_numnodes len w)) =
+    (if existsb (answer_local max_numnodes) (page_answers KW kernel max_numnodes (pages_of len) (l_k w)) then t_nodeset T
+     else fold_left bs_union (map (answer_mask max_numnodes) (page_answers KW kernel max_numnodes (pages_of len) (l_k w))) bs_empty).
+Proof. exact get_area_membind_reports. Qed.
+Print Assumptions linux_get_area_membind_reports_union.
+
+Example get_area_membind_nonvacuous :
+  (* kernel wanting 128 mask bits, two pages bound to {0} and {0}: the answer is {0}, nothing above bit 63 *)
   let T := TP (bs_of_N 3) (bs_of_N 3) (bs_of_N 3) (bs_of_N 3) [] true in
   let kernel (c : kcall) (k : unit) := (KR 0 E0 (bs_of_N 1) (Z.of_N MPOL_BIND) [], k) in
-  hr_set (fst (linux_get_area_membind unit kernel T 128 garbage 4096 (LW tt (-1) (-1) []))) <> bs_of_N 1
-  /\ hr_set (fst (linux_get_area_membind unit kernel T 64 garbage 4096 (LW tt (-1) (-1) []))) = bs_of_N 1.
-Proof. exists (bs_of_N (2 ^ 100)). vm_compute. split; [discriminate|reflexivity]. Qed.
-Print Assumptions linux_get_area_membind_uninit_refuted.
+  hr_set (fst (linux_get_area_membind unit kernel T 128 8192 (LW tt (-1) (-1) []))) = bs_of_N 1 /\
+  hr_rc (fst (linux_get_area_membind unit kernel T 128 8192 (LW tt (-1) (-1) []))) = 0%Z.
+Proof. vm_compute. auto. Qed.
